@@ -398,8 +398,8 @@ def probe_geff(inp) -> ProbeResult:
 
 
 PARTS = [
-    Part("df", sources(), probe_df, quick=900, thorough=20000),
-    Part("geff", sources(geff=True), probe_geff, quick=200, thorough=3000),
+    Part("df", sources(), probe_df, quick=3000, thorough=30000),
+    Part("geff", sources(geff=True), probe_geff, quick=400, thorough=4000),
 ]
 
 
